@@ -1041,7 +1041,111 @@ func runC18(c *Ctx) {
 			}
 		}
 	}
-	c.S.Floor("R8", "decoders with a pointer-to-slice out-parameter", 1, nOut)
+	// The same for a decoder that is a method and assigns fields of its receiver: a field it assigns on some path is
+	// assigned before every successful return (all or nothing — a zero-length payload leaves no earlier value behind).
+	nRecv := 0
+	for _, f := range c.P.RepoFunctions() {
+		switch load.RelPkg(f) {
+		case "eventlog", "ovmf/abi":
+		default:
+			continue
+		}
+		if c.isTestFunc(f) || errIndex(f.Signature) < 0 || f.Signature.Recv() == nil || len(f.Params) < 2 || f.Blocks == nil {
+			continue
+		}
+		if _, isPtr := f.Params[0].Type().(*types.Pointer); !isPtr {
+			continue
+		}
+		reads := false
+		for _, p := range f.Params[1:] {
+			if p.Type().String() == "io.Reader" || p.Type().String() == "[]byte" {
+				reads = true
+			}
+		}
+		if !reads {
+			continue
+		}
+		recv := f.Params[0]
+		fieldIdx := map[int]int{}
+		var names []string
+		storeField := func(in ssa.Instruction) (int, bool) {
+			st, ok := in.(*ssa.Store)
+			if !ok {
+				return 0, false
+			}
+			fa, ok := st.Addr.(*ssa.FieldAddr)
+			if !ok || fa.X != ssa.Value(recv) {
+				return 0, false
+			}
+			switch fa.Type().(*types.Pointer).Elem().Underlying().(type) {
+			case *types.Slice:
+			case *types.Basic:
+				if fa.Type().(*types.Pointer).Elem().Underlying().(*types.Basic).Kind() != types.String {
+					return 0, false
+				}
+			default:
+				return 0, false
+			}
+			// an accumulator (x.F = append(x.F, …)) extends what is there by design; it is no "destination"
+			if call, ok := st.Val.(*ssa.Call); ok {
+				if bi, ok := call.Call.Value.(*ssa.Builtin); ok && bi.Name() == "append" && len(call.Call.Args) > 0 {
+					if ld, ok := call.Call.Args[0].(*ssa.UnOp); ok {
+						if fa2, ok := ld.X.(*ssa.FieldAddr); ok && fa2.X == fa.X && fa2.Field == fa.Field {
+							return 0, false
+						}
+					}
+				}
+			}
+			return fa.Field, true
+		}
+		for _, b := range f.Blocks {
+			for _, in := range b.Instrs {
+				if fi, ok := storeField(in); ok {
+					if _, seen := fieldIdx[fi]; !seen {
+						fieldIdx[fi] = len(names)
+						names = append(names, flow.FieldName(in.(*ssa.Store).Addr.(*ssa.FieldAddr)))
+					}
+				}
+			}
+		}
+		if len(names) == 0 || len(names) > 16 {
+			continue
+		}
+		nRecv++
+		r := &esp.Rule{Name: "C18.R8"}
+		r.Relevant = func(*ssa.Function) bool { return false }
+		r.Match = func(in ssa.Instruction) []esp.Ev {
+			if fi, ok := storeField(in); ok {
+				return []esp.Ev{{ID: fieldIdx[fi], Name: "field assigned", ErrIdx: -1, BoolIdx: -1}}
+			}
+			return nil
+		}
+		r.Step = func(x *esp.Ctx, s esp.State, ev esp.Ev, ph esp.Phase) (esp.State, string) {
+			if ph == esp.AtCall {
+				return s.Set(uint(ev.ID)), ""
+			}
+			return s, ""
+		}
+		ei := errIndex(f.Signature)
+		nm := names
+		r.AtReturn = func(x *esp.Ctx, s esp.State, rets []esp.Abs) string {
+			if rets[ei] == esp.NonZero {
+				return ""
+			}
+			for i, n := range nm {
+				if !s.Has(uint(i)) {
+					return "R8: the decoder may return success without assigning its field " + n + ", which it assigns on other successful paths: the object keeps whatever the field held before (a value decoded earlier)"
+				}
+			}
+			return ""
+		}
+		e := c.engine(r)
+		e.Run(f, esp.State{})
+		if c.reportEngine(e, "R8", func(v *esp.Violation) string { return load.FuncName(f) + ":receiver fields assigned" }) == 0 {
+			c.S.OK("R8", load.FuncName(f)+":receiver fields assigned", c.pos(f.Pos()), fmt.Sprintf("every successful return follows the stores to %v", names), true)
+		}
+	}
+	c.S.Floor("R8", "decoders that deliver through an out-parameter or through slice/string fields of their receiver", 3, nOut+nRecv)
 
 	// ---------------- R7 no silent truncation in stream encoders ----------------
 	// a stream encoder (a function of the codec packages that takes an io.Writer) that re-slices a value field to
